@@ -41,16 +41,31 @@ impl Arena {
     }
     pub fn fci<'a>(&'a self, f: FciVal<'a>) -> &'a FciVal<'a> {
         // SAFETY: FciVal<'a> only borrows data owned by this arena (or nothing); it is dropped with it
-        let b: Box<FciVal<'static>> = unsafe { std::mem::transmute::<Box<FciVal<'a>>, Box<FciVal<'static>>>(Box::new(f)) };
+        let f: FciVal<'static> = unsafe { std::mem::transmute::<FciVal<'a>, FciVal<'static>>(f) };
+        // FCI builders are placed in recycled boxes, so that builders of successive operations live at the
+        // SAME address (whatever a library remembers about "the builder at this address" meets a different one)
+        let b: Box<FciVal<'static>> = match FCI_POOL.with(|p| p.borrow_mut().pop()) {
+            Some(mut b) => {
+                *b = f;
+                b
+            }
+            None => Box::new(f),
+        };
         let p: *const FciVal<'static> = &*b;
         self.fcis.borrow_mut().push(b);
         unsafe { &*(p as *const FciVal<'a>) }
     }
 }
+thread_local! {
+    static FCI_POOL: RefCell<Vec<Box<FciVal<'static>>>> = RefCell::new(vec![]);
+}
 impl Drop for Arena {
     fn drop(&mut self) {
-        // FCI values may borrow from strs/bytes: drop them first
-        self.fcis.borrow_mut().clear();
+        // FCI values may borrow from strs/bytes: their contents are dropped first; the boxes are recycled
+        for mut b in self.fcis.borrow_mut().drain(..).rev() {
+            *b = FciVal::Pli(Pli::builder());
+            FCI_POOL.with(|p| p.borrow_mut().push(b));
+        }
     }
 }
 
